@@ -70,13 +70,15 @@ def rep_special_factors(rep):
     b = REPS[rep]['bits']; P = REPS[rep]['P']
     M, PM = tmax(rep), tmax(P)
     out = [(M // 2147, 1), (M // 2147 + 1, 1)] if M // 2147 >= 2 else []
-    out += [(M, 1), (1, M), (7, 1 << (b - 1)), (3, 1 << (b - 2)), (1 << (b - 2), 3), ((PM // 3), 7), (7, PM // 3 - (1 if (PM // 3) % 7 == 0 else 0))]
+    k3 = 1
+    while k3 * 3 <= PM: k3 *= 3          # largest power of 3 that fits the promoted type (smooth: factors instantly)
+    out += [(M, 1), (1, M), (7, 1 << (b - 1)), (3, 1 << (b - 2)), (1 << (b - 2), 3), (k3, 7), (7, k3)]
     if b <= 16:
         out += [(30011, 7), (7, 30011), (46337, 46349), (2147483647, 3), (3, 2147483647)]
     if b == 32:
         out += [(2147483647, 3), (3, 2147483647), (65521, 65537)]
     if b == 64:
-        out += [(2147483647, 3), (4294967291, 4294967279), (3037000493, 7), ((1 << 61) - 1, 3)]
+        out += [(2147483647, 3), (4294967291, 4294967279), (3037000493, 7), ((1 << 61) - 1, 3), (3, (1 << 61) - 1)]
     res = []
     for n, d in out:
         g = gcd(n, d)
@@ -113,12 +115,17 @@ def W_of(rep):
         return 'u64'
     if i['bits'] <= 32:
         return 'i64'
-    return 'i128'
+    return 'i128' if i['signed'] else 'u128'
 
 
 def wlit(rep, v):
     w = W_of(rep)
-    if w == 'i128': return lit(v)
+    if w == 'i128':
+        assert -(1 << 127) <= v < (1 << 127), v
+        return lit(v)
+    if w == 'u128':
+        assert 0 <= v < (1 << 128), v
+        return 'U128(0x%xULL, 0x%xULL)' % (v >> 64, v & ((1 << 64) - 1))
     if w == 'i64':
         assert -(1 << 63) < v < (1 << 63), v
         return '((i64)%dLL)' % v
